@@ -22,6 +22,8 @@ pub enum Op {
     AddPoly(Vec<(f64, f64)>),
     SubPoly(Vec<(f64, f64)>),
     MulLinear((f64, f64), (f64, f64)),
+    /// product with a polynomial of degree 2..6 (FFT path): leading coefficient, lower coefficients ascending
+    MulPoly((f64, f64), Vec<(f64, f64)>),
     Derivative,
     Antiderivative((f64, f64)),
     RoundTrip,
@@ -196,6 +198,26 @@ fn run_field<N: Fld>(case: &Case, mut o: Obs) -> Outcome {
             return o.fail("integrate(b,a) != -integrate(a,b)");
         }
         let _ = (fc, sc);
+        // short panels: nearly coincident end points (half the polynomial's zero tolerance, just below the default
+        // tolerance 1e-10, 1e-13) - the integral is small, not zero, and stays additive
+        for delta in [0.5 * tol, 0.9e-10, 1e-13] {
+            let id = ia + c(delta, 0.0);
+            if id == ia {
+                continue;
+            }
+            let (fd, sd) = f(id);
+            let i_ad = integ(ia, id);
+            if !((i_ad - (fd - fa)).norm() <= g * (sa + sd)) {
+                return o.fail(format!("short panel: integrate(a, a+{delta:e}) = {i_ad:e} but F(a+d)-F(a) = {:e} (allowed {:e})", fd - fa, g * (sa + sd)));
+            }
+            let i_db = integ(id, ib);
+            if !((i_ad + i_db - i_ab).norm() <= g * (2.0 * sa + 2.0 * sd + 2.0 * sb)) {
+                return o.fail(format!("integrals not additive over a short first panel of width {delta:e}: {i_ad:e} + {i_db:e} != {i_ab:e}"));
+            }
+            if (fd - fa).norm() > 4.0 * g * (sa + sd) {
+                o.label("short-panel-resolved");
+            }
+        }
     }
 
     // ---- edit history against the reference coefficient map
@@ -221,6 +243,14 @@ fn run_field<N: Fld>(case: &Case, mut o: Obs) -> Outcome {
                 Op::AddPoly(v) => q2 += mk::<N>(&v.iter().map(z).collect::<Vec<_>>(), tol),
                 Op::SubPoly(v) => q2 -= &mk::<N>(&v.iter().map(z).collect::<Vec<_>>(), tol),
                 Op::MulLinear(c1, c0) => q2 *= mk::<N>(&[z(c0), z(c1)], tol),
+                Op::MulPoly(lead, low) => {
+                    let mut v: Vec<C64> = low.iter().take(6).map(z).collect();
+                    while v.len() < 2 {
+                        v.push(c(1.0, 0.0));
+                    }
+                    v.push(z(lead));
+                    q2 *= mk::<N>(&v, tol)
+                }
                 Op::Derivative => q2 = q2.derivative(),
                 Op::Antiderivative(v) => q2 = q2.antiderivative(N::from_c(z(v))),
                 Op::RoundTrip => {
@@ -234,6 +264,7 @@ fn run_field<N: Fld>(case: &Case, mut o: Obs) -> Outcome {
         });
         // the model
         let mut absent_purge = false;
+        let mut fft_noise = 0.0f64;
         match op {
             Op::Set(pw, v) => {
                 let pw = *pw as usize;
@@ -289,6 +320,25 @@ fn run_field<N: Fld>(case: &Case, mut o: Obs) -> Outcome {
                 }
                 m = r;
             }
+            Op::MulPoly(lead, low) => {
+                let mut v: Vec<C64> = low.iter().take(6).map(z).collect();
+                while v.len() < 2 {
+                    v.push(c(1.0, 0.0));
+                }
+                v.push(z(lead));
+                // schoolbook product; the implementation's FFT product is compared within the C11 noise bound
+                let nfft = (2 * m.len().max(q.order() + 1).max(v.len())).next_power_of_two() as f64;
+                let (n1m, n1v): (f64, f64) = (m.iter().map(|t| t.norm()).sum(), v.iter().map(|t| t.norm()).sum());
+                fft_noise = (16.0 + nfft) * EPS * n1m * n1v;
+                let mut r = vec![c(0.0, 0.0); m.len() + v.len() - 1];
+                for (i, a) in m.iter().enumerate() {
+                    for (j, b) in v.iter().enumerate() {
+                        r[i + j] += mulz(*a, *b);
+                    }
+                }
+                m = r;
+                o.label("history-fft-product");
+            }
             Op::Derivative => m = deriv_coeffs_c(&m, 1),
             Op::Antiderivative(v) => {
                 let mut r = vec![z(v)];
@@ -323,12 +373,13 @@ fn run_field<N: Fld>(case: &Case, mut o: Obs) -> Outcome {
             // same single IEEE operations on both sides -> a few ulps; the tolerance-driven
             // purge_leading may zero coefficients within tol on either side
             let ok = (g[k] - w).norm() <= 8.0 * EPS * w.norm()
-                || (matches!(op, Op::PurgeLeading) && (g[k] - w).norm() <= 1.5 * tol && (g[k].norm() == 0.0 || w.norm() == 0.0));
+                || (matches!(op, Op::PurgeLeading) && (g[k] - w).norm() <= 1.5 * tol && (g[k].norm() == 0.0 || w.norm() == 0.0))
+                || (matches!(op, Op::MulPoly(..)) && (g[k] - w).norm() <= fft_noise + 1.5 * tol);
             if !ok {
                 return o.fail(format!("after step {step} {op:?}: coefficient of x^{k} is {:e}, reference map has {w:e} (scale {mscale:e})", g[k]));
             }
         }
-        if q.order() + 1 < m.len() && m[q.order() + 1..].iter().any(|t| t.norm() > 1.5 * tol) {
+        if q.order() + 1 < m.len() && m[q.order() + 1..].iter().any(|t| t.norm() > 1.5 * tol + fft_noise) {
             return o.fail(format!("after step {step} {op:?}: order() = {} is below the reference degree", q.order()));
         }
         // re-synchronise: every step is judged against the implementation's own previous state, so that
@@ -337,7 +388,7 @@ fn run_field<N: Fld>(case: &Case, mut o: Obs) -> Outcome {
             m[k] = g[k];
         }
         // keep the model's view of what is zero aligned with the implementation after purges
-        if matches!(op, Op::PurgeLeading) {
+        if matches!(op, Op::PurgeLeading | Op::MulPoly(..)) {
             m = g.clone();
             while m.len() > q.order() + 1 {
                 m.pop();
@@ -402,6 +453,7 @@ fn op() -> BoxedStrategy<Op> {
         1 => coef_vec(12).prop_map(Op::AddPoly),
         1 => coef_vec(12).prop_map(Op::SubPoly),
         1 => (nonzero(), val()).prop_map(|(a, b)| Op::MulLinear(a, b)),
+        1 => (nonzero(), proptest::collection::vec(val(), 2..=5)).prop_map(|(a, b)| Op::MulPoly(a, b)),
         1 => Just(Op::Derivative),
         1 => val().prop_map(Op::Antiderivative),
         1 => Just(Op::RoundTrip),
@@ -441,8 +493,8 @@ pub fn run(opts: &Opts) -> i32 {
         }
     }
     spec.cases = opts.tier.pick(150_000, 4_000_000);
-    spec.essential = vec![("purge-absent", 0.2), ("purge-leading-term", 0.1), ("long-history", 0.3), ("complex", 0.3)];
-    spec.rule = "generated: polynomials of length 1..31 (real/complex, shapes as C11), evaluation points |x|<=2, integration points in [-2,2], and histories vec(op, 0..40) over {set_coefficient(p<=40), purge_coefficient(p<=45 absolute, and relative to the current end: leading term, one/two/three past the end), purge_leading, +-scalar, *-/scalar, +-polynomial, *linear, derivative, antiderivative(c), from_slice(get_coefficients()), negation}; oracle: naive power-sum evaluation, term-wise calculus, and a reference coefficient map replicated with the same single IEEE operations, compared after every step for all powers up to max(len)+2; no step may panic. Non-trivial = history with a purge of an absent power, or >= 10 operations. Distinct = distinct case JSON.".into();
+    spec.essential = vec![("purge-absent", 0.2), ("purge-leading-term", 0.1), ("long-history", 0.3), ("complex", 0.3), ("history-fft-product", 0.2), ("short-panel-resolved", 0.5)];
+    spec.rule = "generated: polynomials of length 1..31 (real/complex, shapes as C11), evaluation points |x|<=2, integration points in [-2,2] plus short panels [a, a+d] with d = half the polynomial's zero tolerance, 0.9e-10 and 1e-13 (integral = F(a+d)-F(a) within the rounding bound, additivity), and histories vec(op, 0..40) over {set_coefficient(p<=40), purge_coefficient(p<=45 absolute, and relative to the current end: leading term, one/two/three past the end), purge_leading, +-scalar, *-/scalar, +-polynomial, *linear, *polynomial of degree 2-6 (FFT path, judged within the C11 noise bound), derivative, antiderivative(c), from_slice(get_coefficients()), negation}; oracle: naive power-sum evaluation, term-wise calculus, and a reference coefficient map replicated with the same single IEEE operations, compared after every step for all powers up to max(len)+2; no step may panic. Non-trivial = history with a purge of an absent power, or >= 10 operations. Distinct = distinct case JSON.".into();
     spec.max_shrink_iters = 4000;
     run_spec(spec, opts)
 }
